@@ -537,7 +537,8 @@ inline std::string make_sig(const std::string &prop, const std::string &site, co
         std::string coarse = dev;
         static const char *const raised[] = {"raised instead of returning data", "raised instead of returning offset and count"};
         for (const char *r : raised) if (dev.compare(0, std::string(r).size(), r) == 0) coarse = r;
-        return prop + "|" + in.family + "|fewer position entries than dimensions|unspecified dimension returned in full|" + coarse;
+        // the effective match mode is part of the class: the listed known finding is about Exclusive matching only
+        return prop + "|" + in.family + "|fewer position entries than dimensions, " + (in.match == RangeMatch::Inclusive ? "Inclusive" : "Exclusive") + "|unspecified dimension returned in full|" + coarse;
     }
     (void)assertion;
     return prop + "|" + in.family + "|" + input_class(in, d) + "|" + assertion + "|" + dev;
